@@ -64,13 +64,13 @@ type verifEntry struct {
 
 // VerifGroup is exported so that harnesses in other packages can install pre-states.
 type VerifGroup struct {
-	params   fsm.Parameters
-	events   []verifEvent
-	entries  []*verifEntry
-	ready    bool
-	stopped  bool
-	termSeen bool
-	termAsked bool
+	params     fsm.Parameters
+	events     []verifEvent
+	entries    []*verifEntry
+	ready      bool
+	stopped    bool
+	termSeen   bool
+	termAsked  bool
 	migrateErr error
 	// ghost log of what the group was asked to do
 	GetSyncCalls int
@@ -378,7 +378,9 @@ func (s verifStored) Get(out cbg.CBORUnmarshaler) error {
 	*o = *cloneState(s.st)
 	return nil
 }
-func (s verifStored) Mutate(mutator interface{}) error { return errors.New("verif: Mutate not modelled") }
+func (s verifStored) Mutate(mutator interface{}) error {
+	return errors.New("verif: Mutate not modelled")
+}
 
 func (g *VerifGroup) Get(id interface{}) fsm.StoredState {
 	g.GetCalls++
